@@ -1,6 +1,6 @@
 (** C07 — Whatever the STUN builder emits is bounded and well-formed.  Statements only. *)
 From Coq Require Import ZArith List Bool.
-From Nice Require Import Base.Bytes Stun.StunModel Stun.StunProofs1 Stun.StunProofs2 Stun.StunProofs3.
+From Nice Require Import Base.Bytes Stun.StunModel Stun.StunProofs1 Stun.StunProofs2 Stun.StunProofs3 Stun.StunAgentModel Stun.SoftwareProofs Gen.Utf8Skip.
 Import ListNotations.
 Local Open Scope Z_scope.
 
@@ -53,3 +53,23 @@ Example C07_nonvacuous :
    | Some b => r <- append_bytes c b 6 [97] ;; match r with FOk b' => v <- validate_len b' true ;; Ok (len b', v) | _ => Fault end
    | None => Fault end) = Ok (28, Len 28).
 Proof. vm_compute. split; reflexivity. Qed.
+
+(** SOFTWARE (stun_message_append_software, table utf8_skip_data regenerated from stun/stun5389.c): the appended value is a prefix of the
+    configured string, holds at most 128 characters as the implementation counts them, and a string of up to 128 single-byte characters is
+    appended whole. *)
+Theorem C07_software_is_prefix : forall s, exists t, s = software_cut s ++ t.
+Proof. exact software_cut_prefix. Qed.
+Print Assumptions C07_software_is_prefix.
+
+Theorem C07_software_at_most_128_chars : forall s, (chars SOFTWARE_MAX_CHARS (software_cut s) <= 128)%nat.
+Proof. exact software_at_most_128_chars. Qed.
+Print Assumptions C07_software_at_most_128_chars.
+
+Theorem C07_software_single_byte_whole : forall s,
+  Forall (fun x => 0 <= x < 192) s -> (length s <= 128)%nat -> software_cut s = s.
+Proof. exact software_ascii_whole. Qed.
+Print Assumptions C07_software_single_byte_whole.
+
+Example C07_software_multibyte_kept_whole :
+  let s := concat (repeat [195; 169] 130) in length (software_cut s) = 256%nat /\ software_cut s = firstn 256 s.
+Proof. exact software_two_byte_chars. Qed.
